@@ -492,8 +492,8 @@ def gen_value(rng, depth=0, allow_zone=True, allow_holo=True):
         return A.ListValue(items=[A.InlineMap(pairs={rng.choice(["k", "j", "id"]): ("HOLO" if allow_holo and rng.random() < 0.3 else gen_scalar(rng))})
                                   for _ in range(rng.randint(1, 3))])
     if r < 0.93 and allow_zone and depth == 0:
-        return A.LiteralZoneValue(content=rng.choice(["code", "line1\nline2", "x = 1\n", "", "a: b"]),
-                                  info_tag=rng.choice([None, "py", "json"]), fence_marker=rng.choice(["```", "````"]))
+        return A.LiteralZoneValue(content=rng.choice(ZONE_CONTENTS),
+                                  info_tag=rng.choice([None, "py", "json", "markdown"]), fence_marker=rng.choice(["```", "````"]))
     if allow_holo and depth == 0:
         return "HOLO"         # placeholder replaced at text level
     return gen_scalar(rng)
@@ -514,6 +514,32 @@ def gen_meta_block(rng, features):
             out[k] = A.ListValue(items=[A.InlineMap(pairs={"k": gen_scalar(rng)}), gen_scalar(rng)])
         else:
             out[k] = gen_scalar(rng)
+    return out
+
+
+# literal-zone contents: plain ones AND the ones a whole-text post-pass of the emitted view would damage (round-2 seed
+# C14-a: project(authoring) emitting with FormatOptions(blank_line_normalize, trailing_whitespace="strip")): lines ending
+# in blanks / a tab, runs of >= 3 empty lines, lines that look like section markers, whitespace-only content.  The octave
+# view is parsed back and its zone CONTENT is compared byte for byte (zone_items: the content is one string leaf) with
+# the projection and with the json view, in all four modes.
+ZONE_CONTENTS = ["code", "line1\nline2", "x = 1\n", "", "a: b",
+                 "line one  \nline two\n\n\n\nafter the gap\n  trailing tab\t\nend",
+                 "\u00a71::A\nx\n\u00a72::B\ny", "tail \t", "\n\n\n\nx", "a\n\n\n\n\n", " \n\t\n  ",
+                 "x\u00a7 1::\n\n\n\n\u00a73::C[note]\n", "K::v   \n===END===\n\n\n\n// c \n"]
+ZONE_FRAGILE = [z for z in ZONE_CONTENTS if any(ln != ln.rstrip() for ln in z.split("\n")) or "\n\n\n\n" in z or "\u00a7" in z]
+
+
+def zone_contents(doc):
+    A = _A()
+    out = []
+
+    def walk(n):
+        if isinstance(n, A.Assignment) and isinstance(n.value, A.LiteralZoneValue):
+            out.append(n.value.content)
+        for c in getattr(n, "children", None) or []:
+            walk(c)
+    for n in doc.sections:
+        walk(n)
     return out
 
 
@@ -698,6 +724,9 @@ def _run(ctx, root, have_model):
         ctx.hist("parsed_document_has", ("holographic " if holo else "") + ("nested-META " if nmeta else "") or "neither")
         for pos in holo_positions(src):
             ctx.hist("holographic_position", pos)
+        zc = zone_contents(src)
+        ctx.hist("literal_zones", "none" if not zc else ("with trailing blanks/tabs, >=3 blank lines or section-like lines"
+                                                        if any(z in ZONE_FRAGILE for z in zc) else "plain content only"))
         if have_model:
             m_lines.append("items " + src_tok)
             m_expect.append(("items(source)", {"doc_text": text}, fmt_items(src_items)))
@@ -811,6 +840,13 @@ def _run(ctx, root, have_model):
                     ctx.property_failure({"doc_text": text, "mode": mode, "item": fmt_items([it])},
                                          "json view has an item the octave view lacks: " + fmt_items([it]))
             if "octave" in per_format and per_format["octave"][0] == "items":
+                zkey = "k" + enc_str("content")
+                want_z = sorted((p, c) for p, c in view_items if p and p[-1] == zkey and not any(st.startswith("s") for st in p))
+                got_z = sorted((p, c) for p, c in per_format["octave"][1] if p and p[-1] == zkey and not any(st.startswith("s") for st in p))
+                if want_z != got_z:
+                    diff = [fmt_items([it]) for it in want_z if it not in got_z][:2]
+                    ctx.property_failure({"doc_text": text, "mode": mode, "format": "octave", "zone_items_missing": diff},
+                                         f"octave view ({mode}, lossy={pr.lossy}) alters the content of a literal zone (compared byte for byte with the projection)")
                 if set(per_format["octave"][1]) != set(view_items):
                     ctx.property_failure({"doc_text": text, "mode": mode}, "octave view does not contain exactly the projection's items")
             # ---- CLI ----
